@@ -164,23 +164,24 @@ pub fn pp1(
         debug_assert!(b == chebyshev_modn(&zn, &g, exp));
         v
     };
-    // Compute the giant steps i*d1 for i in 2..2+d2
+    // Compute the giant steps i*d1 for i in 0..=d2: with baby steps j < d1/2 they
+    // cover every i*d1 ± j up to d1*d2 (the reported B2).
     let d2 = d2 as usize;
     let gsteps = {
-        let mut steps = Vec::with_capacity(d2);
+        let mut steps = Vec::with_capacity(d2 + 1);
         let mut dgprev = two;
         let mut dg = chebyshev_modn(&zn, &g, d1);
         let step = dg;
         steps.push(two);
         steps.push(dg);
-        for _ in 2..d2 {
+        for _ in 2..=d2 {
             let dgnext = zn.sub(&zn.mul(&dg, &step), &dgprev);
             steps.push(dgnext);
             (dgprev, dg) = (dg, dgnext);
         }
         steps
     };
-    debug_assert!(gsteps.len() == d2);
+    debug_assert!(gsteps.len() == d2 + 1);
 
     let vals = Poly::roots_eval(&zn, &gsteps, &bsteps);
     // Compute cumulative product
